@@ -231,6 +231,10 @@ class H:
     def new_rec(self, clock, how, val, plan, kind, src, decoy=False, ahead=None):
         with self._idlock:
             tid = next(self._ids)
+        if kind == 'defer':
+            plan = [dict(plan[0]) if plan else {}]
+            if not plan[0].get('raise'):
+                plan[0]['ret'] = None       # what the wrapper hands to the clock
         rec = dict(tid=tid, clock=clock, ckind=self.kind(clock), cname=self.cname(clock),
                    how=how, val=val, plan=plan, kind=kind, src=src, decoy=decoy,
                    ahead=(ahead if ahead is not None else
@@ -300,6 +304,15 @@ class H:
                     raise _excs()[step['raise']]('vf injected')
                 return _ret(step)
             return vf_task
+        if kind == 'defer':
+            # handed to the library's defer(): called without arguments, its
+            # return value is dropped (a number must NOT re-schedule it)
+            def vf_deferred():
+                step = h._on_wake(rec, rec['clock'])
+                if step.get('raise'):
+                    raise _excs()[step['raise']]('vf injected')
+                return 0.002
+            return vf_deferred
         if kind == 'rout':
             from sc3.base.stream import Routine
 
@@ -326,7 +339,9 @@ class H:
         rec['c0_seq'] = self.log.seq()
         rec['c0'] = self.main.elapsed_time()
         try:
-            if how == 'rel':
+            if how == 'rel' and kind == 'defer':
+                self.clk.defer(item, val, clock)
+            elif how == 'rel':
                 clock.sched(val, item)
             elif how == 'abs':
                 clock.sched_abs(val, item)
@@ -753,7 +768,7 @@ def gen_plan(rng, clocks, p_raise, depth=0):
                 c = rng.choice(clocks)
                 ch.append((c, 'rel', rng.choice([0, 0, 0.002, 0.01, 0.03]),
                            gen_plan(rng, clocks, p_raise, depth + 1),
-                           rng.choice(['tk', 'fn', 'rout'])))
+                           rng.choice(['tk', 'fn', 'rout', 'tk', 'fn', 'rout', 'defer'])))
             st['children'] = ch
         steps.append(st)
     return steps
@@ -835,7 +850,11 @@ def run_stress(spec, acc):
                     total[0] += 1
                     plan = gen_plan(rng, clocks, 0.08)
                     kind = rng.choice(['tk', 'fn', 'rout'])
-                    if ck != 'AppClock' and rng.random() < 0.45:
+                    if rng.random() < 0.12:
+                        # the library's defer(func, delta, clock) convenience
+                        h.do_sched(c, 'rel', rng.choice([0, 0.003, 0.02, 0.05]), plan,
+                                   'defer', ('thread', wi))
+                    elif ck != 'AppClock' and rng.random() < 0.45:
                         # absolute, quantised -> many exact ties across threads
                         if ck == 'SystemClock':
                             now = main.elapsed_time()
@@ -916,6 +935,8 @@ def _account(h, inst, acc, inj=None):
             acc.count('raising_tasks')
         acc.count(f"tasks_{rec['ckind']}")
         acc.count(f"sched_from_{rec['src'][0]}")
+        if rec['kind'] == 'defer':
+            acc.count('deferred_functions')
     if inj is not None:
         acc.count('injected_yields', inj.injected)
         acc.count('monitored_line_hits', sum(inj.hits.values()))
@@ -1199,7 +1220,9 @@ def run_clear(spec, acc):
     main, clk = h.main, h.clk
     vid = [0]
     for rnd in range(cfg['rounds']):
-        for ck in ('SystemClock', 'AppClock', 'TempoClock', 'TempoClock-stop'):
+        for ck in ('SystemClock', 'AppClock', 'TempoClock', 'TempoClock-stop',
+                   'TempoClock-stop2'):
+            ck, ck_full = ck.rstrip('2'), ck
             h.recs.clear()
             h.log.events.clear()
             h.watch.reset()
@@ -1231,7 +1254,7 @@ def run_clear(spec, acc):
             time.sleep(0.05)
             c0 = h.log.seq()
             if ck == 'TempoClock-stop':
-                if rnd % 2:
+                if rnd % 2 and ck_full == 'TempoClock-stop':
                     # stop() called by a task that another clock is awakening
                     # (that thread owns the library lock): the other clocks go on
                     from sc3.base.functions import Function
@@ -1245,11 +1268,28 @@ def run_clear(spec, acc):
                     stopper.sched(0, make_call_stop(clock))
                     time.sleep(0.05)
                 else:
-                    clock.stop()
+                    # the other public ways of stopping tempo clocks
+                    way = 'stop' if ck_full == 'TempoClock-stop' else \
+                        ['stop_all', 'cmd-period', 'cmd-period-permanent'][rnd % 3]
+                    acc.count('stopped_by/' + way)
+                    if way == 'stop':
+                        clock.stop()
+                    elif way == 'stop_all':
+                        clk.TempoClock.stop_all()
+                    else:
+                        from sc3.base.systemactions import CmdPeriod
+                        clock.permanent = way.endswith('permanent')
+                        CmdPeriod.run()     # clears every clock, stops the non-permanent ones
                 t0 = time.time()
-                while clock.running() and time.time() - t0 < 3:
+                keeps_running = ck == 'TempoClock-stop' and getattr(clock, 'permanent', False)
+                while clock.running() and not keeps_running and time.time() - t0 < 3:
                     time.sleep(0.001)
-                if clock.running():
+                if keeps_running:
+                    time.sleep(0.05)
+                    if not clock.running():
+                        acc.violation('C08/permanent-clock-stopped-by-cmd-period/TempoClock',
+                                      {'round': rnd})
+                elif clock.running():
                     acc.violation('C08/stop-does-not-stop/TempoClock', {'round': rnd})
             else:
                 clock.clear()
@@ -1260,8 +1300,10 @@ def run_clear(spec, acc):
                                     ('thread', 'a')) for _ in range(3)]
             else:
                 # the process-wide clocks are not affected by stopping a TempoClock
+                # (a permanent clock that was only cleared goes on as well)
                 after = [h.do_sched(c2, 'rel', 0.01, [{'ret': None}], 'tk', ('thread', 'a'))
-                         for c2 in (clk.SystemClock, clk.AppClock)]
+                         for c2 in (clk.SystemClock, clk.AppClock)
+                         + ((clock,) if clock.running() else ())]
             time.sleep(0.75)
             cancelled = {}
             for r in before:
@@ -1288,13 +1330,13 @@ def run_clear(spec, acc):
                     # a process-wide clock is gone: nothing after this can be judged
                     h.report_lockmon(acc)
                     return
-            else:
+            elif ck_full == 'TempoClock-stop':
                 vid[0] += 1
                 tempo_hammer_case(h, acc, rng, vid[0])
                 vid[0] += 1
                 h.watch.reset()
                 etempo_case(h, acc, rng, vid[0])
-            if ck == 'TempoClock':
+            if ck == 'TempoClock' or (ck_full == 'TempoClock-stop2' and clock.running()):
                 clock.stop()
     h.report_lockmon(acc)
     acc.maxi('max_host_oversleep_s', h.watch.max_oversleep)
